@@ -147,7 +147,9 @@ func checkC05(r *verdict.Run) {
 // tables grow, shrink and age before the algebra commands run (defects that need a structure's history, not one
 // command, to show). Never DEL: the same objects live through the whole sequence.
 var c05ChurnMembers = []string{"apple", "banana", "cherry", "date", "elderberry", "fig", "grape", "honeydew", "kiwi", "lemon", "mango", "nectarine", "orange", "papaya", "quince",
-	"raspberry", "strawberry", "tangerine", "ugli", "vanilla", "watermelon", "xigua", "yam", "zucchini", "m1", "m2", "m3", "m4", "m5", "m6"}
+	"raspberry", "strawberry", "tangerine", "ugli", "vanilla", "watermelon", "xigua", "yam", "zucchini", "m1", "m2", "m3", "m4", "m5", "m6",
+	// names of exactly one and two hash blocks (8, 16 bytes) that differ in one bit of the first byte of the last block
+	"0aaaaaaa", "8aaaaaaa", "aaaaaaaaAbbbbbbb", "aaaaaaaaQbbbbbbb"}
 
 func c05ChurnGen(rng *rand.Rand, m *model.Model, keys []string) []string {
 	sets := []string{"c0", "c1", "c2"}
